@@ -278,6 +278,42 @@ def run_xo(name, tier, res, seed):
             bad(r[0], r[1], f, cid, r[2])
             continue
         res.states += 1
+        # the same pickle loaded TWICE in this process (the first result kept and written), and a second generation (an
+        # unpickled object pickled again): every load is an object of its own
+        res.transitions += 3
+        res.events["load-again"] += 1
+        try:
+            del vals[:]
+            objs = make_group(group, make, make_at)
+            data = pickle.dumps(objs, protocol=proto)
+            a = pickle.loads(data)
+            ma = list(vals)
+            for k, mv in enumerate(ma):
+                leaves = [(p_, lt, lv) for p_, lt, lv in xt.leaf_paths(t, mv) if p_ and not any(q in ("*", "#") for q in p_)]
+                for p_, lt, lv in leaves[:1]:
+                    cnd = hist.leaf_candidates(lt, lv, hist.string_room(lv) if lt[0] == "Str" else 0, k)
+                    if cnd:
+                        hand.assign(t, a[k], p_, cnd[0])
+                        ma[k] = xt.set_path(ma[k], p_, cnd[0])
+            b = pickle.loads(data)
+            g2 = pickle.loads(pickle.dumps(a, protocol=proto))
+            r = None
+            if any(x._buffer is y._buffer for x in a for y in b):
+                r = ("C20.independent", "two-loads-share-a-buffer", "the second load of the same pickle handed out objects in the buffer of the first")
+            elif not all(xt.veq(xt.read(t, x), m_) for x, m_ in zip(a, ma)):
+                r = ("C20.independent", "second-load-changed-the-first", "objects of the first load no longer read what was written to them")
+            elif not all(xt.veq(xt.read(t, x), m_) for x, m_ in zip(b, vals)):
+                r = ("C20.equal", "second-load-differs", "")
+            elif any(x._buffer is y._buffer for x in a for y in g2):
+                r = ("C20.independent", "second-generation-shares-a-buffer", "an unpickled object pickled again came back in its own buffer")
+            elif not all(xt.veq(xt.read(t, x), m_) for x, m_ in zip(g2, ma)):
+                r = ("C20.equal", "second-generation-differs", "")
+            if r:
+                bad(r[0], r[1], dict(f, history="load-again"), dict(cid, history="load-again"), r[2])
+                continue
+        except Exception as e:
+            bad("C20.pickle", "load-again-raises:" + common.exc_failure(e), dict(f, history="load-again"), dict(cid, history="load-again"), repr(e))
+            continue
         # histories of writes on either side
         frontier = [[]]
         for d in range(depth):
